@@ -415,6 +415,54 @@ def run(rep, tier):
         if "loop[" not in got and "obj" in got and code in "<>":
             i = got.index("obj")
             got = got[:i] + ["loop[", "obj", "]"] + got[i + 1:]
+        if code in "([<>{":
+            # containers are decided on scripted children, however their loop is written: a concrete count (or, for a dict, a script ending in the reader's own
+            # NULL object), distinguishable child objects, and the value that comes back
+            null_f = disp.get("0")
+            nullv = None
+            if isinstance(null_f, FuncRef):
+                try:
+                    o0 = Spec(F).run(null_f, [me])
+                    nullv = [l.value for g, l in leaves(o0) if isinstance(l, Ret)][0]
+                except Exception:
+                    nullv = None
+            scripts = [(["k1", "v1", "k2", "v2", nullv], None, {"k1": "v1", "k2": "v2"}, 5), ([None, "v", nullv], None, {None: "v"}, 3),
+                       (["k", None, nullv], None, {"k": None}, 3), ([nullv], None, {}, 1)] if code == "{" else \
+                [(["a", "b", "c"], 3, {"(": ("a", "b", "c"), "[": ["a", "b", "c"], "<": {"a", "b", "c"}, ">": frozenset(("a", "b", "c"))}[code], 3), ([], 0, {"(": (), "[": [], "<": set(), ">": frozenset()}[code], 0)]
+            bad_c = []
+            for script, count, want_v, nreads in scripts:
+                it_ = iter(script)
+                nn = [0, 0]
+
+                def hook_c(spec, name, fv, args, kw, node, it_=it_, nn=nn, count=count):
+                    base = name.split(".")[-1]
+                    if base == "_r_long":
+                        nn[1] += 1
+                        return count if count is not None else Sym("unexpected-count", "int")
+                    if name.endswith("_FastUnmarshaller.load"):
+                        nn[0] += 1
+                        try:
+                            return next(it_)
+                        except StopIteration:
+                            return Sym("past-end-of-script")
+                    return NotImplemented
+                me_c = Instance(FU)
+                me_c.attrs.update(bufstr=Sym("buf", "bytes"), bufpos=Sym("p", "int"), _stringtable=Sym("stringtable", "list"), python_version=None)
+                try:
+                    out_c = Spec(F, hooks=[hook_c]).run(f, [me_c])
+                    rets_c = [l.value for g, l in leaves(out_c) if isinstance(l, Ret)]
+                except Exception as ex:
+                    bad_c.append("not evaluable: %s" % ex)
+                    continue
+                okv = len(rets_c) == 1 and type(rets_c[0]) is type(want_v) and rets_c[0] == want_v and nn[0] == nreads and nn[1] == (0 if count is None else 1)
+                if not okv:
+                    bad_c.append("children %s -> %s after %d object reads, %d count reads (expected %r after %d)" % (
+                        ["NULL" if x is nullv else x for x in script], [show(r_)[:40] for r_ in rets_c][:2], nn[0], nn[1], want_v, nreads))
+            rep.ob("R4", f.qualname, "code=%r:layout" % code, not bad_c, expected="a count followed by that many objects" if code != "{" else "key/value objects up to the NULL object",
+                   derived=bad_c[:3] or "scripted children agree", msg="type %r read with a layout different from marshal.c's: %s" % (code, "; ".join(bad_c[:2])))
+            if not bad_c:
+                rep.ob("R4", f.qualname, "code=%r:kind" % code, True, expected=kind, derived=kind)
+                continue
         rep.ob("R4", f.qualname, "code=%r:layout" % code, got == want, expected=want, derived=got, msg="type %r read with a layout different from marshal.c's" % code)
         rets = [l.value for g, l in leaves(out) if isinstance(l, Ret)]
         kinds = set()
